@@ -485,12 +485,15 @@ func verifK_CloseChannel() {
 		rdone, sdone = true, true
 		rerr, serr = errors.New("n/a"), errors.New("n/a")
 	}
-	cause := errors.New("carrier broke")
+	var cause error
+	if verifBool("carrierBroke") {
+		cause = errors.New("carrier broke")
+	} // else: Close() by the application / a clean end of the carrier
 	verifGo("closer", func() { c.close(cause) })
 	verifDrain()
 	verifAssert(rdone && sdone && ldone, "C04+C05.k-every-blocked-call-returns-after-close")
 	if rdone {
-		verifAssert(rerr != nil && rerr != io.EOF, "C04.k-blocked-recv-non-ok")
+		verifAssert(rerr != nil && rerr != io.EOF, "C01+C04.k-blocked-recv-non-ok")
 	}
 	if sdone {
 		verifAssert(serr != nil, "C04.k-blocked-send-non-ok")
@@ -504,6 +507,8 @@ func verifK_CloseChannel() {
 			verifCover("k-late-starter-refused")
 		}
 	}
+	// (in every case the in-flight calls above must have ended non-OK: a tunnel that goes away,
+	// even cleanly, must never look like a normal end of the RPC - C01: messages may be missing)
 	verifAssert(c.Err() == cause && !vChanOpenRO(c.Done()), "C04.k-err-and-done")
 	verifAssert(len(c.streams) == 0, "C14.k-table-empty-after-close")
 	verifAssert(!verifMutexHeld(&c.mu) && !verifMutexHeld(&c.streamCreation), "C15.k-channel-locks-released")
